@@ -80,6 +80,14 @@ class sym_bool(metaclass=_BoolMeta):
 
 
 def sym_range(*a):
+    """range() whose start may stay symbolic when the length is fixed on this path."""
+    if not any(is_sym(x) for x in a):
+        return _b.range(*a)
+    if len(a) == 2:
+        start, stop = a
+        n = core.implied_value(stop - start)
+        if n is not None:
+            return [start + k for k in _b.range(max(0, int(n)))]
     return _b.range(*[core.concretize_int(x) for x in a])
 
 
